@@ -1,0 +1,55 @@
+//go:build verif
+
+// Contracts for the deductive checker in /verif (govc). Comment-only; ignored without the
+// "verif" build tag. Ghost state and invariants: see x/pos/keeper/zz_contracts_verif.go.
+//
+// Every message handler: a result that is not OK leaves all pos and bank state exactly as it
+// was (C11: validate before the first write); an OK result made exactly the legal transition.
+
+package pos
+
+// C09: an unjail request is accepted only for a jailed, staked validator with at least the minimum
+// stake, whose signing info exists, is not tombstoned, and whose jail time has passed
+//@ func validateUnjailMessage(ctx sdk.Ctx, msg types.MsgUnjail, k keeper.Keeper) (address sdk.Address, err sdk.Error)
+//@   props C09 C06
+//@   uses valinv
+//@   ensures err == nil ==> pos.has[msg.ValidatorAddr] && pos.vals[msg.ValidatorAddr].Jailed && pos.vals[msg.ValidatorAddr].Status == 2
+//@        && val(pos.vals[msg.ValidatorAddr].StakedTokens) >= pp_minstake && address == msg.ValidatorAddr
+//@        && pos.sinfohas[address] && !pos.sinfo[address].Tombstoned && ctx_time(ctx) >= pos.sinfo[address].JailedUntil
+//@
+//@ func handleMsgUnjail(ctx sdk.Ctx, msg types.MsgUnjail, k keeper.Keeper) (res sdk.Result)
+//@   props C09 C11 C06
+//@   uses valinv idxinv queueinv mininv
+//@   modifies pos.vals[msg.ValidatorAddr], pos.has[msg.ValidatorAddr], pos.idx[msg.ValidatorAddr], pos.stakesum
+//@   ensures [rejected] res.Code != 0 ==> unchanged(pos, auth)
+//@   ensures [unjailed] res.Code == 0 ==> old(pos.vals[msg.ValidatorAddr]).Jailed && !pos.vals[msg.ValidatorAddr].Jailed && pos.vals[msg.ValidatorAddr].Status == 2
+//@        && pos.vals[msg.ValidatorAddr].StakedTokens == old(pos.vals[msg.ValidatorAddr]).StakedTokens
+//@        && pos.idx[msg.ValidatorAddr][val(pos.vals[msg.ValidatorAddr].StakedTokens) / 1000000]
+//@        && !old(pos.sinfo[msg.ValidatorAddr]).Tombstoned && ctx_time(ctx) >= old(pos.sinfo[msg.ValidatorAddr]).JailedUntil
+//@
+// C06: staked -> unstaking only, by the validator's own begin-unstake
+//@ func handleMsgBeginUnstake(ctx sdk.Ctx, msg types.MsgBeginUnstake, k keeper.Keeper) (res sdk.Result)
+//@   props C06 C11
+//@   uses valinv idxinv queueinv mininv
+//@   modifies pos.vals[msg.Address], pos.has[msg.Address], pos.idx[msg.Address], pos.stakesum, pos.queue[ctx_time(ctx) + pp_unstaking_time]
+//@   dead ret3
+//@   ensures [rejected] res.Code != 0 ==> unchanged(pos, auth)
+//@   ensures [begun] res.Code == 0 ==> old(pos.has[msg.Address]) && old(pos.vals[msg.Address]).Status == 2 && pos.vals[msg.Address].Status == 1
+//@        && pos.vals[msg.Address].UnstakingCompletionTime == ctx_time(ctx) + pp_unstaking_time && pos.queue[ctx_time(ctx) + pp_unstaking_time][msg.Address]
+//@        && pos.vals[msg.Address].StakedTokens == old(pos.vals[msg.Address]).StakedTokens
+//@
+// C04/C06: new or unstaked -> staked, funded from the validator's own account: exactly msg.Value moves into the
+// pool and exactly msg.Value is recorded as stake
+//@ func handleStake(ctx sdk.Ctx, msg types.MsgStake, k keeper.Keeper) (res sdk.Result)
+//@   props C04 C06 C11
+//@   uses bankinv valinv idxinv queueinv mininv
+//@   requires pk_addr(msg.PubKey) != modaddr("staked_tokens_pool") && pp_minstake >= 0 && msg.PubKey != nil && modreg("staked_tokens_pool")
+//@   modifies acct.id, acct.next, acct.coins, acct.addr, auth.bal[modaddr("staked_tokens_pool")], auth.has[modaddr("staked_tokens_pool")], auth.bal[pk_addr(msg.PubKey)], auth.has[pk_addr(msg.PubKey)]
+//@   modifies pos.vals[pk_addr(msg.PubKey)], pos.has[pk_addr(msg.PubKey)], pos.idx[pk_addr(msg.PubKey)], pos.stakesum, pos.sinfo[pk_addr(msg.PubKey)], pos.sinfohas[pk_addr(msg.PubKey)]
+//@   ensures [rejected] res.Code != 0 ==> unchanged(pos) && auth.bal == old(auth.bal) && auth.supply == old(auth.supply)
+//@   ensures [staked] res.Code == 0 ==> (!old(pos.has[pk_addr(msg.PubKey)]) || old(pos.vals[pk_addr(msg.PubKey)]).Status == 0) && pos.has[pk_addr(msg.PubKey)] && pos.vals[pk_addr(msg.PubKey)].Status == 2
+//@        && val(pos.vals[pk_addr(msg.PubKey)].StakedTokens) == val(msg.Value) && val(msg.Value) >= pp_minstake
+//@   ensures [moved] res.Code == 0 ==> amt(auth.bal[modaddr("staked_tokens_pool")], pp_denom) == amt(old(auth.bal[modaddr("staked_tokens_pool")]), pp_denom) + val(msg.Value)
+//@        && amt(auth.bal[pk_addr(msg.PubKey)], pp_denom) == amt(old(auth.bal[pk_addr(msg.PubKey)]), pp_denom) - val(msg.Value)
+//@   ensures [backed] amt(auth.bal[modaddr("staked_tokens_pool")], pp_denom) - pos.stakesum == old(amt(auth.bal[modaddr("staked_tokens_pool")], pp_denom) - pos.stakesum)
+//@   ensures auth.supply == old(auth.supply)
